@@ -191,6 +191,9 @@ func dischargeAll(obls []*Obligation, workDir string, timeoutS int, all bool, se
 		ob.Status = "discharged"
 		for i, r := range rs {
 			ob.Ms += r.Ms
+			if r.Ms > ob.MaxMs {
+				ob.MaxMs = r.Ms
+			}
 			if ob.Solver == "" {
 				ob.Solver = r.Solver
 			}
